@@ -72,6 +72,12 @@ def oracle(case):
     if case.get("null"):
         desc["null"] = case["null"]  # any NULL marker must carry the NaNs through the file
     las = build.build_las(desc)
+    if case.get("wrap_item") is not None:
+        # wrap= left to lasio (None): whatever the object's own WRAP item says and however it spells it, header and
+        # data section of the output must agree about the layout
+        las.version["WRAP"].value = case["wrap_item"]
+        opts.pop("wrap", None)
+        out.cls("wrap-left-to-lasio|WRAP=%s" % case["wrap_item"])
     if case.get("dlm"):
         # the object of a file that was comma- or tab-delimited: write() emits blanks and must say so in every version
         las.version["DLM"].value = case["dlm"]
@@ -309,6 +315,8 @@ def cases(draw, max_rows=6):
         case["dlm"] = draw(st.sampled_from(["COMMA", "TAB"]))
     if draw(st.integers(0, 5)) == 0:
         case["units"] = "dotted"
+    if draw(st.integers(0, 7)) == 0:
+        case["wrap_item"] = draw(st.sampled_from(["YES", "Yes", "yes", "NO", "No"]))
     if nullspec is not None:
         case["null"] = nullspec
     if col_fmt and draw(st.booleans()):
